@@ -18,9 +18,7 @@ pub(super) fn setup_typed_function(
     if parent.scope_depth == 0 {
         parent.globals.insert(func.name.clone(), false);
         if !parent.global_indices.contains_key(&func.name) {
-            let idx = parent.next_global_index;
-            parent.global_indices.insert(func.name.clone(), idx);
-            parent.next_global_index += 1;
+            parent.alloc_global_index(&func.name)?;
         }
     } else {
         let params_resolved: Vec<_> = func
